@@ -57,8 +57,41 @@ pub fn eval_for(pid: &'static str) -> impl Fn(&[u8]) -> Sigs {
                 return vec![];
             }
         }
-        compare_fields(pid, buf, &want).0
+        let mut sigs = compare_fields(pid, buf, &want).0;
+        if pid == "C08" && sigs.is_empty() {
+            sigs.extend(ident_shown(buf));
+        }
+        sigs
     }
+}
+
+/// C08, the "shown" half: the report of a frame that carries an identification has an `Ident:`
+/// line with the decoded call sign, and for type codes 1-4 a `Category:` line with the letter
+/// D, C, B, A and the category number.
+fn ident_shown(buf: &[u8]) -> Sigs {
+    let Decoded::Ok(frame) = decode(buf) else { return vec![] };
+    let act = refdec::actual(&frame);
+    let cn = match (act.get("me.cn"), act.get("bds.cn")) {
+        (Some(refdec::Val::S(c)), _) | (_, Some(refdec::Val::S(c))) => c.clone(),
+        _ => return vec![],
+    };
+    let Ok(text) = std::panic::catch_unwind(std::panic::AssertUnwindSafe(|| frame.to_string())) else { return vec![] };
+    let class = refdec::class_of(buf);
+    let value = |key: &str| text.lines().find_map(|l| l.trim_start().strip_prefix(key).map(|v| v.trim().to_string()));
+    let mut out = vec![];
+    match value("Ident:") {
+        Some(v) if v == cn.trim() => {}
+        got => out.push((format!("C08/shown_ident/{class}"), format!("the frame decodes to the identification {cn:?} but its report shows {got:?}"))),
+    }
+    if let (Some(refdec::Val::U(ca)), true) = (act.get("me.ca"), act.contains_key("me.cn")) {
+        let tc = buf[4] >> 3;
+        let want = format!("{}{}", ["?", "D", "C", "B", "A"][(tc as usize).min(4)], ca);
+        match value("Category:") {
+            Some(v) if v == want => {}
+            got => out.push((format!("C08/shown_category/{class}"), format!("type code {tc}, category {ca}: the report shows {got:?}, expected {want:?}"))),
+        }
+    }
+    out
 }
 
 pub fn replay(pid: &'static str, v: &Value) -> Vec<Failure> {
